@@ -3,7 +3,9 @@
    target library's style) and anstyle-syntect (syntect style -> anstyle::Style),
    driven by the translated tables of Generated/Adapters.v.  The statement skeleton
    of every function modelled here is pinned token for token by the translator
-   (tools/gen_adapters.py).  Definitions only.
+   (tools/gen_adapters.py), and every function is also TRANSLATED as a whole
+   (tools/gen_fn_adapters.py -> Generated/AdaptersFn.v) and proved equal to this
+   model (Proofs/AdaptersGen.v).  Definitions only.
 
    An anstyle::Style is the record [sstyle] of Spec/Sgr (three optional colours,
    effects as a bit set); a target style is the abstract [ad_tstyle] of
@@ -110,3 +112,88 @@ Fixpoint ad_syntect_conv_effects (tbl : list (list N * N)) (font : N) : N :=
 Definition ad_from_syntect (fg bg : N * N * N * N) (font : N) : sstyle :=
   let rgb := fun c : N * N * N * N => match c with (r, g, b, _) => CRgb r g b end in
   mkStyle (Some (rgb fg)) (Some (rgb bg)) None (ad_syntect_conv_effects ad_gen_syntect_flags font).
+
+(* ---- adapters for the function translator (tools/gen_fn_adapters.py) -------- *)
+(* Vocabulary of Generated/AdaptersFn.v: what the translated Rust functions CALL
+   (anstyle's getters / builders, the target libraries' builder methods and
+   constructors), over the types above.  Definitions only; nothing above depends on
+   them.  Proofs/AdaptersGen.v proves the translated functions equal to the hand
+   model above. *)
+
+(* anstyle::Color as the Rust enum is shaped: every variant has ONE payload (AnsiColor =
+   its ANSI number, Ansi256Color = its index, RgbColor = the triple of its fields) *)
+Inductive ad_color : Set :=
+  | AdcAnsi (a : N)
+  | AdcIdx (x : N)
+  | AdcRgb (c : N * N * N).
+Definition ad_color_of (c : colour) : ad_color :=
+  match c with CAnsi i => AdcAnsi i | CIdx n => AdcIdx n | CRgb r g b => AdcRgb (r, g, b) end.
+Definition ad_colour_of (c : ad_color) : colour :=
+  match c with AdcAnsi i => CAnsi i | AdcIdx n => CIdx n | AdcRgb (r, g, b) => CRgb r g b end.
+(* the tuple structs Ansi256Color(u8), RgbColor(u8, u8, u8) *)
+Definition ad_idx_f0 (x : N) : N := x.
+Definition ad_rgb_f0 (c : N * N * N) : N := match c with (r, _, _) => r end.
+Definition ad_rgb_f1 (c : N * N * N) : N := match c with (_, g, _) => g end.
+Definition ad_rgb_f2 (c : N * N * N) : N := match c with (_, _, b) => b end.
+Definition ad_rgb_new (r g b : N) : N * N * N := (r, g, b).
+
+(* anstyle::Style::{get_fg_color, get_bg_color, get_underline_color, get_effects} *)
+Definition ad_s_get_fg (s : sstyle) : option ad_color := option_map ad_color_of (s_fg s).
+Definition ad_s_get_bg (s : sstyle) : option ad_color := option_map ad_color_of (s_bg s).
+Definition ad_s_get_ul (s : sstyle) : option ad_color := option_map ad_color_of (s_ul s).
+Definition ad_s_get_eff (s : sstyle) : N := s_eff s.
+(* anstyle::Style::{new, fg_color, bg_color, effects} (builders, by value) *)
+Definition ad_s_new : sstyle := mkStyle None None None 0.
+Definition ad_s_with_fg (s : sstyle) (c : option ad_color) : sstyle :=
+  mkStyle (option_map ad_colour_of c) (s_bg s) (s_ul s) (s_eff s).
+Definition ad_s_with_bg (s : sstyle) (c : option ad_color) : sstyle :=
+  mkStyle (s_fg s) (option_map ad_colour_of c) (s_ul s) (s_eff s).
+Definition ad_s_with_eff (s : sstyle) (e : N) : sstyle :=
+  mkStyle (s_fg s) (s_bg s) (s_ul s) e.
+(* anstyle::Effects / syntect FontStyle (both bitflags): new, contains, `|` *)
+Definition ad_bits_new : N := 0.
+Definition ad_bits_contains (e other : N) : bool := N.land e other =? other.
+Definition ad_bits_or (a b : N) : N := N.lor a b.
+
+(* a target style under construction: builder methods of ansi_term / owo-colors / yansi
+   (`style.fg(c)`, `style.on(c)`, `style.bold()` ..: by value), setters of termcolor's
+   ColorSpec (`set_fg(Option<Color>)`, `set_bold(bool)`: a flag that is switched off is
+   no longer in the list), crossterm's `Attributes::set` *)
+Definition ad_t_new : ad_tstyle := mkAdT None None None [].
+Definition ad_t_with_fg (t : ad_tstyle) (c : ad_tcolor) : ad_tstyle :=
+  mkAdT (Some c) (ad_t_bg t) (ad_t_ul t) (ad_t_attrs t).
+Definition ad_t_with_bg (t : ad_tstyle) (c : ad_tcolor) : ad_tstyle :=
+  mkAdT (ad_t_fg t) (Some c) (ad_t_ul t) (ad_t_attrs t).
+Definition ad_t_set_fg (t : ad_tstyle) (c : option ad_tcolor) : ad_tstyle :=
+  mkAdT c (ad_t_bg t) (ad_t_ul t) (ad_t_attrs t).
+Definition ad_t_set_bg (t : ad_tstyle) (c : option ad_tcolor) : ad_tstyle :=
+  mkAdT (ad_t_fg t) c (ad_t_ul t) (ad_t_attrs t).
+Definition ad_t_attr (t : ad_tstyle) (name : list N) : ad_tstyle :=
+  mkAdT (ad_t_fg t) (ad_t_bg t) (ad_t_ul t) (ad_t_attrs t ++ [name]).
+Definition ad_t_flag (t : ad_tstyle) (name : list N) (on : bool) : ad_tstyle :=
+  if on then ad_t_attr t name
+  else mkAdT (ad_t_fg t) (ad_t_bg t) (ad_t_ul t) (filter (fun n => negb (ad_name_eqb n name)) (ad_t_attrs t)).
+Definition ad_attrs_new : list (list N) := [].
+Definition ad_attrs_set (l : list (list N)) (a : list N) : list (list N) := l ++ [a].
+
+(* Option::map with a function that can "panic" (the 16-way matches over AnsiColor = N
+   answer None above 15) *)
+Definition ad_opt_map_m {A B : Type} (f : A -> option B) (o : option A) : option (option B) :=
+  match o with
+  | Some x => match f x with Some y => Some (Some y) | None => None end
+  | None => Some None
+  end.
+
+(* syntect::highlighting::{Style, Color, FontStyle}: a colour is (r, g, b, a), a font
+   style its bits; a FontStyle constant is the bit the library documents for it *)
+Record ad_syn_style : Set := mkAdSyn {
+  ad_syn_fg : N * N * N * N;
+  ad_syn_bg : N * N * N * N;
+  ad_syn_font : N
+}.
+Definition ad_syn_r (c : N * N * N * N) : N := match c with (r, _, _, _) => r end.
+Definition ad_syn_g (c : N * N * N * N) : N := match c with (_, g, _, _) => g end.
+Definition ad_syn_b (c : N * N * N * N) : N := match c with (_, _, b, _) => b end.
+Definition ad_syn_a (c : N * N * N * N) : N := match c with (_, _, _, a) => a end.
+Definition ad_font_flag (name : list N) : N :=
+  match ad_assoc name ad_syntect_flags with Some (pos, _) => bit pos | None => 0 end.
